@@ -24,6 +24,14 @@ Section C07.
          Val {| ro_session := s'; ro_cf := cf'; ro_rg := rg; ro_resp := resp; ro_downlink := None; ro_buf := bytes |}.
   Proof. exact (oversized_is_timeout enc mac_fn). Qed.
 
+  (* ... nor does it touch the application's queue of delivered, not yet collected downlinks *)
+  Theorem C07_rejected_frame_keeps_the_downlink_queue : forall s cf rg bytes maxp snr ignore_mac depth q o,
+    fcnt_ok s -> bytes_ok bytes = true ->
+    (forall n, ~ spec_accepts mac_fn s bytes maxp n) ->
+    handle_rx_session enc mac_fn s cf rg bytes maxp snr ignore_mac = Val o ->
+    dl_queue_push depth q (ro_downlink o) = q.
+  Proof. exact (rejected_frame_keeps_the_downlink_queue enc mac_fn). Qed.
+
   (* join procedure: a frame that is not a JoinAccept authentic under the root key leaves the MAC as it was *)
   Theorem C07_invalid_join_accept_is_identity : forall m nonce c bytes e buf,
     ja_check_mic_and_decrypt enc mac_fn bytes (cr_appkey c) = (Err e, buf) ->
